@@ -440,6 +440,48 @@ def pool(R, ctx, rid_override=None, only=None):
                  "declaration renamed to `%s`, recorded as %s (expected `%s`, reusable) %s" % (cell["v"], rec, want, why[:1] if not ok else ""))
 
 
+def globals_monotone(R, ctx):
+    rid = "C09.globals"
+    lib = ctx.lib
+    CGP = "process::processors::collect_globals::CollectGlobalsProcessor"
+    R.rule(rid, "the set of global names collected before renaming (the field CollectGlobalsProcessor hands out through into_globals / "
+                "iter_globals) only ever grows: every operation on it in any method of the processor is an insertion or a read. A name taken "
+                "out of it (e.g. because it was later localised) can be given to an earlier local, which then captures the read of the global")
+    outs = [lib.fn("%s::%s" % (CGP, n)) for n in ("into_globals", "iter_globals")]
+    outs = [f for f in outs if f is not None]
+    if not R.require(rid, "anchor:accessors", len(outs) >= 1, "", "CollectGlobalsProcessor::into_globals / iter_globals not found"):
+        return
+    fields = set()
+    for f in outs:
+        fa = ctx.an.fa(f["path"])
+        for c in thir.calls(f):
+            if c["args"]:
+                fields |= {o[1] for o in fa.origins(c["args"][0]) if o[0] == CGP}
+    if not R.require(rid, "anchor:globals-field", len(fields) == 1, ctx.adt_where(CGP), "field handed out as the collected globals: %s" % sorted(fields)):
+        return
+    gf = next(iter(fields))
+    READ_OR_GROW = {"insert", "extend", "iter", "into_iter", "contains", "len", "is_empty", "get", "union", "is_subset", "is_superset", "clone", "borrow", "deref", "as_ref"}
+    n, grows = 0, 0
+    for f in lib.fn_list:
+        if not f.get("self_tys", "").startswith(CGP) or not thir.body_of(f):
+            continue
+        fa = ctx.an.fa(f["path"])
+        for c in thir.calls(f):
+            if not c["args"] or callee_of(c) in lib.fns:
+                continue
+            if (CGP, gf) in fa.origins(c["args"][0]) and "Set" in lib.ty_str(lib.strip_refs(c["args"][0]["t"])):
+                n += 1
+                op = c.get("fname")
+                grows += op in ("insert", "extend")
+                ok = op in READ_OR_GROW
+                R.ob(rid, "globals|%s" % op if ok else "globals|%s|%s" % (f["path"].split("::")[-1], op), ok, ctx.where(f, c.get("ln")),
+                     "read / insertion" if ok else "`%s` takes names out of the collected globals: a local declared earlier can be renamed to a global that is still read" % op, nontrivial=not ok)
+        for nd in thir.walk(thir.body_of(f)):
+            if nd.get("k") == "Assign" and (CGP, gf) in fa.origins(nd["l"]) and f["path"].split("::")[-1] not in ("default", "new"):
+                R.ob(rid, "globals|reassigned|%s" % f["path"].split("::")[-1], False, ctx.where(f, nd.get("ln")), "the collected set is replaced wholesale")
+    R.require(rid, "floor", n >= 2 and grows >= 1, "", "%d operations on the collected set, %d insertions" % (n, grows))
+
+
 def run(R, ctx):
     R.explanation = (
         "Event-order rules on both scope-tracking visitors (Lua's lexical scoping as ordering constraints between push/insert/visit/pop), a complete "
@@ -451,3 +493,4 @@ def run(R, ctx):
     names(R, ctx)
     fresh(R, ctx)
     pool(R, ctx)
+    globals_monotone(R, ctx)
